@@ -467,7 +467,8 @@ func (S) RunTape(t *sim.Tape, st *sim.Stats, keepLog bool) *sim.Outcome {
 	w.seam.NextRead = func(datamodel.Link) *simstore.ReadFault {
 		f := &simstore.ReadFault{Err2At: -1, Chunk: []int{0, 0, 5}[t.Choice(3, "chunk")]}
 		if w.faultTasks[s.Cur()] && t.Pct(12, "fault.read") {
-			f.Kind = []string{"readerr", "openerr"}[t.Choice(2, "fault.read.kind")]
+			f.Kind = []string{"readerr", "openerr", "skip"}[t.Choice(3, "fault.read.kind")]
+			f.SkipErr = traversal.SkipMe{} // a loader that declines a block: for a transform that needs it, that is a failure
 			f.Pos = t.Choice(64, "fault.read.pos")
 			f.ErrSticky = true
 		}
@@ -751,8 +752,9 @@ func (S) RunTape(t *sim.Tape, st *sim.Stats, keepLog bool) *sim.Outcome {
 					if cl.exp.K == model.Map {
 						gen.FieldHints = cl.exp.Keys
 					}
+					withSubset := t.Pct(30, "x.subset_selector")
 					for try := 0; try < 4 && sel == nil; try++ {
-						spec := gen.Selector(t, ssb, 0, false, true)
+						spec := gen.Selector(t, ssb, 0, false, !withSubset)
 						if cs, e := spec.Selector(); e == nil {
 							sel = cs
 							if sv, e2 := model.FromNode(spec.Node()); e2 == nil {
@@ -763,7 +765,7 @@ func (S) RunTape(t *sim.Tape, st *sim.Stats, keepLog bool) *sim.Outcome {
 					if sel == nil {
 						continue
 					}
-					if !strings.HasSuffix(selDesc, "(re-used)") && len(cl.sels) < 4 {
+					if !withSubset && !strings.HasSuffix(selDesc, "(re-used)") && len(cl.sels) < 4 {
 						cl.sels, cl.selDesc = append(cl.sels, sel), append(cl.selDesc, selDesc)
 					}
 					var matched [][]string
@@ -782,16 +784,42 @@ func (S) RunTape(t *sim.Tape, st *sim.Stats, keepLog bool) *sim.Outcome {
 					}
 					desc = fmt.Sprintf("walk-transform-selector(%d matches, selector %s)", len(matched), selDesc)
 					marker := model.StringV("«T»")
-					want = beforeRaw
-					for _, m := range matched {
-						want = replaceAt(want, m, marker)
-					}
+					var called [][]string
+					var calledWith []*model.V
 					pan = safe(func() {
-						res, err = traversal.Progress{Cfg: w.cfg}.WalkTransforming(cl.root, sel, func(_ traversal.Progress, n datamodel.Node) (datamodel.Node, error) {
+						res, err = traversal.Progress{Cfg: w.cfg}.WalkTransforming(cl.root, sel, func(p traversal.Progress, n datamodel.Node) (datamodel.Node, error) {
 							s.Yield("callback")
+							var sg []string
+							for _, x := range p.Path.Segments() {
+								sg = append(sg, x.String())
+							}
+							called = append(called, sg)
+							av, _ := model.FromNode(n)
+							calledWith = append(calledWith, av)
 							return basicnode.NewString("«T»"), nil
 						})
 					})
+					// whatever the selector: the callback is handed the node at its position, and the result is the
+					// input with exactly the positions the callback was called for replaced
+					want = beforeRaw
+					for ci, m := range called {
+						if at := nodeAt(beforeRaw, m); at == nil || !model.Equal(at, calledWith[ci]) {
+							o.Fail("callback-saw-wrong-node", "walk-transform-selector", "%s: at %q the callback was handed %s, the node there is %s", desc, strings.Join(m, "/"), calledWith[ci], at)
+						}
+						want = replaceAt(want, m, marker)
+					}
+					if !withSubset && pan == "" && err == nil {
+						// without subset clauses the read-only matching walk of the same selector names the targeted positions
+						exp := beforeRaw
+						for _, m := range matched {
+							exp = replaceAt(exp, m, marker)
+						}
+						if !model.Equal(exp, want) {
+							o.Fail("wrong-result", "walk-transform-selector", "%s: the transform's callback ran at %q, the matching walk of the same selector matches %q", desc, called, matched)
+						}
+					} else if withSubset {
+						st.Inc("probe.walk_transform_subset_selector")
+					}
 					st.Inc("probe.walk_transform_selector")
 					if len(matched) > 0 {
 						st.Inc("probe.walk_transform_selector_matched")
@@ -1106,6 +1134,28 @@ func replaceAt(v *model.V, segs []string, repl *model.V) *model.V {
 		if ix, err := strconv.Atoi(segs[0]); err == nil && ix >= 0 && ix < len(v.Vals) {
 			c.Vals[ix] = replaceAt(v.Vals[ix], segs[1:], repl)
 			return &c
+		}
+	}
+	return v
+}
+
+// nodeAt navigates a link-free tree.
+func nodeAt(v *model.V, segs []string) *model.V {
+	for _, sg := range segs {
+		if v == nil {
+			return nil
+		}
+		switch v.K {
+		case model.Map:
+			v = v.Get(sg)
+		case model.List:
+			ix, err := strconv.Atoi(sg)
+			if err != nil || ix < 0 || ix >= len(v.Vals) {
+				return nil
+			}
+			v = v.Vals[ix]
+		default:
+			return nil
 		}
 	}
 	return v
